@@ -197,7 +197,8 @@ def fourBranch (lemma radical : Str) (cells : List (Option Str)) (frV : Option C
   match frV with
   | none => .error .keyError
   | some v =>
-    if v.pat = some [ "intr".toList ] then
+    -- `"pat" in v_infos and len(pat)==1 and pat[0]=="intr" and v_infos.get("aux","av")=="av"` (commit 73767de)
+    if v.pat = some [ "intr".toList ] ∧ v.aux.getD "av".toList = "av".toList then
       match cells[0]? with
       | some (some c) => .ok [(radical ++ c, (expInit "V".toList lemma).opt "t" (ovStr "pp"))]
       | _ => .error .typeError                                  -- `radical+None`
